@@ -180,7 +180,9 @@ def setFailed (w : World) (f : Nat) (r : Rec) (R : Nat) : Rec :=
 
 def setStatic (w : World) (f : Nat) (r : Rec) (R : Nat) : Rec :=
   let r := updateStamp w f r R
-  { r with failed := none, isOverride := false, isGenerated := false }
+  -- a source has no checksum (repaired in /repo: a checksum left over from the file's time as a target made
+  -- `redo-stamp` report "unchanged" when the target was generated again with its old data)
+  { r with failed := none, isOverride := false, isGenerated := false, csum := none }
 
 def setOverride (w : World) (f : Nat) (r : Rec) (R : Nat) : Rec :=
   let r := updateStamp w f r R
